@@ -507,10 +507,23 @@ func ruleC01R5(r *Run) {
 	dname := fnName(drainFn)
 	flushCalls := findCalls(drainFn, false, "/iscp.Upstream.Flush")
 	var waitCall ssa.Instruction
+	hasWait := func(f *ssa.Function) bool {
+		found := false
+		allInstrs(f, func(ins ssa.Instruction) {
+			if c, ok := ins.(*ssa.Call); ok {
+				if op, _ := classifyLockCall(&c.Call); op == opWait {
+					found = true
+				}
+			}
+		})
+		return found
+	}
 	allInstrs(drainFn, func(ins ssa.Instruction) {
 		if c, ok := ins.(*ssa.Call); ok {
 			if op, _ := classifyLockCall(&c.Call); op == opWait {
 				waitCall = ins
+			} else if cal := c.Call.StaticCallee(); cal != nil && p.Analysed(cal) && recvTypeName(cal) == "Upstream" && hasWait(cal) {
+				waitCall = ins // the wait loop moved into a helper: its call stands for the wait
 			}
 		}
 	})
@@ -912,7 +925,7 @@ func ruleC01R10(r *Run) {
 		return
 	}
 	found := false
-	withAnon(w, func(fn *ssa.Function) {
+	p.withHelpers(w, 1, func(fn *ssa.Function) { // the goroutine body may be a named method started with go
 		for _, c := range findCalls(fn, false, "context.WithTimeout") {
 			call := c.(*ssa.Call)
 			// dominated by the true edge of AckTimeout != 0
